@@ -206,6 +206,17 @@ Theorem C10_objects_id_list : forall l, Forall in_range3 l ->
   objects_object_ids l = map (fun '(k, r, v) => pack k (norm_r k r) (norm_v k v)) l.
 Proof. exact objects_object_ids_spec. Qed.
 
+(* 10a. the methods of the objects themselves (Node, Way, Relation .ObjectID/ElementID/
+        FeatureID; Changeset, Note, User, Bounds .ObjectID), regenerated from source: the
+        per-id constructors applied to the fields ID and Version, for ALL field values *)
+Theorem C10_struct_methods : forall k r v,
+  struct_object_id k r v = object_id k r v /\ struct_element_id k r v = element_id k r v /\
+  struct_feature_id k r = feature_id k r.
+Proof.
+  intros k r v. split; [exact (struct_object_id_eq k r v)|].
+  split; [exact (struct_element_id_eq k r v)|exact (struct_feature_id_eq k r)].
+Qed.
+
 (* 10b. the collection-level id functions (WayNodes, Members, Nodes, Ways, Relations, OSM):
         the i-th id is the packed id of the i-th item, whatever its version (0 included), so it
         decodes to exactly that kind, reference and version, and equal id lists come from equal
@@ -402,6 +413,7 @@ Definition C10_all_theorems :=
    C10_counts_total,
    C10_elements_id_lists,
    C10_objects_id_list,
+   C10_struct_methods,
    C10_collection_ids,
    C10_no_shape_no_id,
    C10_sorted_element_ids,
